@@ -73,7 +73,10 @@ meta['confirmed'] = bool(rc1 != 0 and rc0 == 0 and (skip_suite or ('596 passed' 
 dst = os.path.join(VERIF, 'seeded', sid)
 os.makedirs(dst, exist_ok=True)
 open(os.path.join(dst, 'patch.diff'), 'w').write(patch)
-shutil.copy(os.path.join(wt, demo), os.path.join(dst, os.path.basename(demo)))
+if os.path.isdir(os.path.join(dst, 'seed_demo')):
+    shutil.rmtree(os.path.join(dst, 'seed_demo'))
+shutil.copytree(os.path.join(wt, 'seed_demo'), os.path.join(dst, 'seed_demo'),
+                ignore=shutil.ignore_patterns('__pycache__', '*.pyc', '*.db', 'FOREIGN*'))
 if os.path.exists(os.path.join(wt, 'SEED_NOTES.md')):
     shutil.copy(os.path.join(wt, 'SEED_NOTES.md'), os.path.join(dst, 'NOTES.md'))
 
